@@ -22,7 +22,10 @@ RULE = (
     'the key (or the initial entry); get may return NO_VALUE only if at some instant during the call no complete entry '
     'was on disk; computers never overlap and never more than one writer has the file open; at quiescence the file '
     'loads to the value of the last completed writer; a non-forced call that starts when a complete entry exists and '
-    'sees no writer during the call does not compute. Non-trivial = two callers overlap and at least one of them wrote.'
+    'sees no writer during the call does not compute. One case in five spreads the callers over TWO keys of one cache '
+    'directory: no call fails, every returned value was computed for the caller\'s own key, at quiescence each entry is '
+    'a complete value computed for its key and no temporary file is left. Non-trivial = two callers overlap and at '
+    'least one of them wrote.'
 )
 ASSUMPTIONS = [
     'the schedule is controlled between threads of one process; every FileLock object opens its own file description, '
@@ -55,7 +58,106 @@ def make_cache(ctype, d):
             'frame': tc.DataFrameCache}[ctype](d)
 
 
+def eval_multikey(case, rec, count=True):
+    """Callers on TWO keys of one cache directory (case['keys'][i] = key index of caller i).  The guarantee is per key,
+    whatever happens to other keys meanwhile: no call fails, every returned value was produced by a computation FOR THAT
+    KEY, and at quiescence every key's entry is a complete value produced for that key."""
+    from taskchain import cache as tc
+    hyp.silence_library_logging()
+    tmp = hyp.scratch_dir('tcv-c15m-')
+    try:
+        ctype = case['ctype']
+        cache = make_cache(ctype, tmp / 'c')
+        keys = ['key-zero', 'key-one']
+        produced = {0: {}, 1: {}}
+        if case['populated']:
+            for ki, k in enumerate(keys):
+                v = make_value(ctype, f'k{ki}-initial', 3 + ki)
+                cache.get_or_compute(k, lambda v=v: v)
+                produced[ki]['initial'] = v
+        s = coop.Sched(case.get('schedule', []), chunks=case['chunks'], segments=case.get('segments'))
+        computed = {}
+
+        def caller_fn(i, op, ki):
+            def fn():
+                n = [0]
+
+                def computer():
+                    n[0] += 1
+                    tag = f'k{ki}-c{i}-{n[0]}'
+                    s.event('compute-enter', tag=tag)
+                    s.yield_point('computing')
+                    v = make_value(ctype, tag, 2 + 5 * i + n[0])
+                    produced[ki][tag] = v
+                    computed.setdefault(i, []).append(tag)
+                    s.event('compute-exit', tag=tag)
+                    return v
+
+                c = make_cache(ctype, tmp / 'c')
+                s.event('call-start', op=op)
+                try:
+                    if op == 'get':
+                        return c.get(keys[ki])
+                    return c.get_or_compute(keys[ki], computer, force=(op == 'force'))
+                finally:
+                    s.event('call-end', op=op)
+            return fn
+
+        with coop.Patched(s, tmp):
+            callers = s.run([caller_fn(i, op, case['keys'][i]) for i, op in enumerate(case['ops'])])
+        info = {'case': case, 'trace': s.trace, 'choices': s.choice_log}
+        for c in callers:
+            op, ki = case['ops'][c.idx], case['keys'][c.idx]
+            if c.error is not None:
+                if isinstance(c.error, hyp.Inconclusive):
+                    raise c.error
+                raise Violation('call-raised', dict(info, caller=c.idx, op=op, key=keys[ki], error=repr(c.error)[:300]))
+            r = c.result
+            if r is tc.NO_VALUE:
+                if op != 'get':
+                    raise Violation('get_or_compute-returned-NO_VALUE', dict(info, caller=c.idx))
+            elif not any(strict_eq(r, v) for v in produced[ki].values()):
+                foreign = any(strict_eq(r, v) for v in produced[1 - ki].values())
+                raise Violation('returned-value-of-another-key' if foreign else 'returned-value-no-computation-produced',
+                                dict(info, caller=c.idx, op=op, key=keys[ki], got=repr(r)[:200]))
+        for ki, k in enumerate(keys):
+            try:
+                final = make_cache(ctype, tmp / 'c').get(k)
+            except Exception as e:
+                raise Violation('entry-at-quiescence-unreadable', dict(info, key=k, error=repr(e)[:300]))
+            if not produced[ki]:
+                if final is not tc.NO_VALUE:
+                    raise Violation('phantom-entry-at-quiescence', dict(info, key=k, got=repr(final)[:100]))
+            elif final is tc.NO_VALUE or not any(strict_eq(final, v) for v in produced[ki].values()):
+                raise Violation('entry-at-quiescence-is-not-a-value-computed-for-its-key',
+                                dict(info, key=k, got=repr(final)[:200]))
+        leftovers = sorted(p.name for p in (tmp / 'c').rglob('*') if p.is_file() and p.name.startswith('tmp'))
+        if leftovers:
+            raise Violation('temporary-files-left-at-quiescence', dict(info, files=leftovers[:5]))
+        writers = {i for i in computed}
+        overlap = False
+        for a, b in itertools.combinations(sorted(writers), 2):
+            if case['keys'][a] == case['keys'][b]:
+                continue
+            steps_a = [k_ for k_, (i, _) in enumerate(s.trace) if i == a]
+            steps_b = [k_ for k_, (i, _) in enumerate(s.trace) if i == b]
+            if steps_a and steps_b and steps_a[0] < steps_b[-1] and steps_b[0] < steps_a[-1]:
+                overlap = True
+        if count:
+            cl = ['two-keys', 'type:' + ctype, f'chunks={case["chunks"]}', 'populated' if case['populated'] else 'empty']
+            if overlap:
+                cl.append('two-keys:writers-of-different-keys-overlap')
+            rec.case(case, nontrivial=overlap, classes=cl,
+                     key=hyp.digest([case['ctype'], case['populated'], case['ops'], case['keys'], case['chunks'],
+                                     s.choice_log]), sample={'case': case, 'trace': s.trace[:60]})
+        return s
+    finally:
+        hyp.drop_scratch(tmp)
+
+
 def eval_case(case, rec, count=True):
+    if case.get('keys'):
+        return eval_multikey(case, rec, count)
     from taskchain import cache as tc
     hyp.silence_library_logging()
     tmp = hyp.scratch_dir('tcv-c15-')
@@ -219,6 +321,18 @@ def eval_case(case, rec, count=True):
 @st.composite
 def cases(draw, n_callers=(2, 3)):
     n = draw(st.integers(*n_callers))
+    if draw(st.integers(0, 4)) == 0:
+        # callers spread over two keys of one cache directory
+        ks = draw(st.lists(st.integers(0, 1), min_size=n, max_size=n).filter(lambda l: len(set(l)) == 2))
+        return {
+            'ctype': draw(st.sampled_from(['json', 'numpy', 'frame'])),
+            'populated': draw(st.booleans()),
+            'ops': [draw(st.sampled_from(['goc', 'goc', 'force', 'get'])) for _ in range(n)],
+            'keys': ks,
+            'chunks': draw(st.integers(1, 3)),
+            'segments': draw(st.lists(st.tuples(st.integers(0, n - 1), st.integers(1, 16)).map(list), min_size=2,
+                                      max_size=8)),
+        }
     if draw(st.booleans()):
         # preemption-bounded schedule: a few long uninterrupted segments (reaches deep interleavings that uniformly
         # random choices practically never produce)
